@@ -134,6 +134,24 @@ def locals_assigned(f, pred):
     return out
 
 
+def conditional_in_stmt(node):
+    """Is `node` evaluated only conditionally *within its own statement*?  (inside the body/orelse of a conditional expression, a non-first
+    operand of and/or, a comprehension, or a lambda) — the CFG has one node per statement, so dominance of the statement says nothing about it."""
+    child = node
+    n = getattr(node, "_parent", None)
+    while n is not None and not isinstance(n, (ast.stmt, ast.ExceptHandler)):
+        if isinstance(n, ast.IfExp) and child is not n.test:
+            return True
+        if isinstance(n, ast.BoolOp) and n.values and n.values[0] is not child:
+            return True
+        if isinstance(n, (ast.Lambda, ast.ListComp, ast.SetComp, ast.DictComp, ast.GeneratorExp)):
+            if not (isinstance(n, (ast.ListComp, ast.SetComp, ast.DictComp, ast.GeneratorExp)) and n.generators and n.generators[0].iter is child):
+                return True
+        child = n
+        n = getattr(n, "_parent", None)
+    return False
+
+
 def enclosing_stmt(node):
     """the statement (or except handler / compound header) whose CFG node evaluates `node`"""
     n = node
